@@ -140,6 +140,24 @@ theorem spec_all_partial (inp : Input) (hnn : endsNonNeg inp = true)
   simp only [specAll, List.all_eq_true]
   exact fun r hr => lag_law_every_row_partial inp hnn r hr (hx _ _)
 
+/-- What the code does on the excluded class, for every input: the reported row carries the error
+and a lag ≥ 0 (so the driver's key `lag-nonneg-with-err-third-pass` names exactly this class). -/
+theorem excluded_class_reports_nonneg_lag_with_error (inp : Input) (r : Row) (hr : r ∈ (runOut inp).rows)
+    (hx : thirdPassErrStart inp r.topic r.part = true) : r.err ≠ 0 ∧ 0 ≤ r.lag ∧ rowLaw inp r = false := by
+  obtain ⟨kr, hkr, e⟩ := mem_rows inp r hr
+  subst e
+  have h := run_excluded_class inp kr hkr hx
+  refine ⟨h.1, h.2, ?_⟩
+  have hb : bad inp kr.2.topic kr.2.part = true := by
+    simp only [thirdPassErrStart, Bool.and_eq_true] at hx
+    unfold bad
+    cases he : get2 inp.end_ kr.2.topic kr.2.part with
+    | none => simp
+    | some e => rw [he] at hx; simp [hx.1.2]
+  simp only [rowLaw, hb, if_true]
+  have : kr.2.lag ≠ -1 := by omega
+  simp [this]
+
 /-- One member that only *joined* topic 0 (nothing assigned), nothing committed, start offset of 0/0
 listed as 2 without error, end offset of 0/0 listed as 10 *with* an error. -/
 def witness : Input :=
